@@ -28,6 +28,7 @@ class RunLog:
         self.draws = []      # (seq, step, site, weighted, value)
         self.observers = []
         self.keep_micro = True
+        self.last_cust = None
 
     def emit(self, kind, *args):
         self.seq += 1
@@ -69,6 +70,8 @@ class TapeDist(ciw.dists.Distribution):
             if "tdep" in tp and t is not None:
                 kk += int(t) % tp["tdep"]
             v = kk / tp["q"]
+            if tp.get("ints") and kk % tp["q"] == 0:
+                v = kk // tp["q"]
         elif fam == "cont":
             v = self.rng.uniform(tp["lo"], tp["hi"])
         elif fam == "int":
@@ -296,8 +299,11 @@ def build(S, log, hooks=None):
         elif s["k"] == "inf":
             servers.append(INF)
         elif s["k"] == "sched":
-            servers.append(ciw.Schedule(numbers_of_servers=list(s["cs"]), shift_end_dates=list(s["ends"]),
-                                        preemption=s["pre"], offset=s["off"]))
+            if s.get("same_as") is not None and s["same_as"] < len(servers) and isinstance(servers[s["same_as"]], ciw.Schedule):
+                servers.append(servers[s["same_as"]])      # one Schedule object used for two nodes
+            else:
+                servers.append(ciw.Schedule(numbers_of_servers=list(s["cs"]), shift_end_dates=list(s["ends"]),
+                                            preemption=s["pre"], offset=s["off"]))
         elif s["k"] == "slot":
             servers.append(ciw.Slotted(slots=list(s["slots"]), slot_sizes=list(s["sizes"]), capacitated=s["cap"],
                                        preemption=s["pre"], offset=s["off"]))
@@ -312,7 +318,9 @@ def build(S, log, hooks=None):
         kw["class_change_time_distributions"] = {
             c: {d: td(t, ("cct", 0, c, d)) for d, t in row.items()} for c, row in S["cct"].items()}
     if S.get("prio"):
-        kw["priority_classes"] = (dict(S["prio"]), list(S["preempt"])) if S.get("preempt") else dict(S["prio"])
+        order = [c for c in (S.get("prio_order") or classes) if c in S["prio"]] + [c for c in classes if c not in (S.get("prio_order") or classes)]
+        pm = {c: S["prio"][c] for c in order}
+        kw["priority_classes"] = (pm, list(S["preempt"])) if S.get("preempt") else pm
     if any(q != INF for q in S["qcap"]):
         kw["queue_capacities"] = list(S["qcap"])
     if S["syscap"] != INF:
